@@ -7,8 +7,12 @@ package vh
 
 import (
 	"fmt"
+	"github.com/semihalev/twig"
+	"os"
+	"path/filepath"
 	"strings"
 	"testing"
+	"time"
 
 	"pgregory.net/rapid"
 )
@@ -768,6 +772,8 @@ var c12ReachSets = []struct {
 	{map[string]string{"base": "[{% block c %}{% endblock %}]", "lib": "{% macro k(a) %}K{{ a }}{% endmacro %}", "main": "{% extends 'base' %}{% import 'lib' as l %}{% block c %}{{ l.k(1) }}{% endblock %}"}, "[K1]"},
 	{map[string]string{"base": "[{% block c %}{% endblock %}]", "lib": "{% macro k(a) %}K{{ a }}{% endmacro %}", "main": "{% extends 'base' %}{% from 'lib' import k as kk %}{% block c %}{{ kk(1) }}{% endblock %}"}, "[K1]"},
 	{map[string]string{"main": "{{ m(1) }}{% macro m(a) %}M{{ a }}{% endmacro %}"}, "M1"},
+	{map[string]string{"lib": "{% macro k(a) %}K{{ a }}{% endmacro %}{% macro k2(a) %}Q{{ a }}{% endmacro %}", "main": "A {%- from 'lib' import k as kk, k2 -%} B{{ kk(1) }}{{ k2(2) }}"}, "ABK1Q2"},
+	{map[string]string{"lib": "{% macro k(a) %}K{{ a }}{% endmacro %}", "main": "A {%- from 'lib' import k -%} B{{ k(1) }} {%- import 'lib' as l -%} C{{ l.k(2) }}"}, "ABK1CK2"},
 	{map[string]string{"main": "{% if true %}{{ m(1) }}{% endif %}{% macro m(a) %}M{{ a }}{{ n(a) }}{% endmacro %}{% macro n(a) %}N{{ a }}{% endmacro %}"}, "M1N1"},
 	{map[string]string{"base": "[{% block c %}{% endblock %}|{% block d %}{% endblock %}]", "mid": "{% extends 'base' %}{% macro mm(a) %}MID{{ a }}{% endmacro %}{% block c %}{{ mm(1) }}{% endblock %}", "main": "{% extends 'mid' %}{% macro cc(a) %}CH{{ a }}{% endmacro %}{% block d %}{{ cc(2) }}{% endblock %}"}, "[MID1|CH2]"},
 	{map[string]string{"base": "[{% block c %}{% endblock %}]", "main": "{% extends 'base' %}{% block c %}{% for i in [1, 2] %}{{ k(i) }}{% endfor %}{% endblock %}{% macro k(a) %}K{{ a }}{% endmacro %}"}, "[K1K2]"},
@@ -786,7 +792,7 @@ func checkC12Reach(c C12ReachCase) error {
 }
 
 func TestC12Reach(t *testing.T) {
-	r := NewRec(t, "C12", "exhaustive: 9 template sets in which a macro is called directly and through _self under the name of a built-in function, before its definition, and from the blocks of templates that extend another (local macro, import-as, from-import alias, two levels each with its own macro); expected text written out; all cases non-trivial")
+	r := NewRec(t, "C12", "exhaustive: 11 template sets in which a macro is called directly and through _self under the name of a built-in function, before its definition, and from the blocks of templates that extend another (local macro, import-as, from-import alias, two levels each with its own macro), and after from / import tags written with whitespace-control dashes; expected text written out; all cases non-trivial")
 	defer r.Flush()
 	r.SetExhaustive()
 	for i := range c12ReachSets {
@@ -799,3 +805,122 @@ func TestC12Reach(t *testing.T) {
 }
 
 func init() { reg("C12.reach", checkC12Reach) }
+
+// ---- macro arguments that are typed nils; libraries that change under a loader --------------------------------
+
+type C12NilArgCase struct {
+	Var string `json:"var"`
+}
+
+func c12NilArgCtx() map[string]interface{} {
+	return map[string]interface{}{"ns": []string(nil), "nm": map[string]int(nil), "np": (*ZStruct)(nil), "ni": []interface{}(nil), "nmi": map[string]interface{}(nil),
+		"nn": zNamedStrSlice(nil), "es": []string{}, "em": map[string]int{}, "zero": 0, "empty": "", "no": nil}
+}
+
+type zNamedStrSlice []string
+
+// checkC12NilArg: the parameter is bound to the argument itself: every test made on it in the macro
+// body answers as the same test made on the argument where the call stands.
+func checkC12NilArg(c C12NilArgCase) error {
+	const probe = "{{ A is null ? 'null' : 'nn' }},{{ A is iterable ? 'it' : 'ni' }},{{ A == null ? 'eq' : 'ne' }},[{{ A }}],{{ A is defined ? 'd' : 'u' }},{{ A|default('dflt') }},{{ A is empty ? 'e' : 'ne' }},{{ A ? 't' : 'f' }}"
+	body := strings.ReplaceAll(probe, "A", "a")
+	inline := strings.ReplaceAll(probe, "A", c.Var)
+	tm := map[string]string{"main": "{% macro p(a) %}" + body + "{% endmacro %}" + inline + "\x1f{{ p(" + c.Var + ") }}\x1f{{ _self.p(" + c.Var + ") }}\x1f{% import 'lib' as l %}{{ l.p(" + c.Var + ") }}\x1f{% from 'lib' import p as pp %}{{ pp(" + c.Var + ") }}",
+		"lib": "{% macro p(a) %}" + body + "{% endmacro %}"}
+	r := render(newEngine(tm), "main", c12NilArgCtx())
+	if r.Failed() {
+		return fmt.Errorf("argument %s: render failed: %v", c.Var, r)
+	}
+	parts := strings.Split(r.Out, "\x1f")
+	for i, got := range parts[1:] {
+		if got != parts[0] {
+			return fmt.Errorf("argument %s (%T): the tests %s answer %s where the call stands and %s on the parameter inside the macro (call form %d of local, _self, import-as, alias)", c.Var, c12NilArgCtx()[c.Var], q(probe), q(parts[0]), q(got), i)
+		}
+	}
+	return nil
+}
+
+func TestC12NilArgs(t *testing.T) {
+	r := NewRec(t, "C12", "exhaustive: 11 argument values that are nil or empty in different ways (nil []string, nil map[string]int, nil *struct, nil []interface{}, nil map[string]interface{}, nil named slice, empty slice, empty map, 0, '', null) passed to a macro through four call forms; oracle: eight tests on the parameter (is null, is iterable, == null, print, is defined, default, is empty, truth) answer as on the argument itself; all cases non-trivial")
+	defer r.Flush()
+	r.SetExhaustive()
+	for _, v := range []string{"ns", "nm", "np", "ni", "nmi", "nn", "es", "em", "zero", "empty", "no"} {
+		c := C12NilArgCase{Var: v}
+		r.Case(v, true, v)
+		if err := checkC12NilArg(c); err != nil {
+			r.FailEnum(t, "C12.nilarg", c, err)
+		}
+	}
+}
+
+type C12ReloadCase struct {
+	Mode int `json:"mode"` // 0 cache off, 1 auto-reload with a file
+	Form int `json:"form"` // 0 import as, 1 from import, 2 from import alias
+}
+
+// checkC12Reload: a macro reached through an import is the macro the library holds now, as the
+// direct call in the library's own template is.
+func checkC12Reload(c C12ReloadCase) error {
+	root, err := os.MkdirTemp(workDir(), "c12-")
+	if err != nil {
+		return fmt.Errorf("harness: %v", err)
+	}
+	defer os.RemoveAll(root)
+	lib := func(v string) string {
+		return "{% macro greet(n = '" + v + "') %}" + v + ":{{ n }}{% endmacro %}[{{ greet('self') }}]"
+	}
+	page := []string{"{% import 'lib.twig' as m %}{{ m.greet('a') }}{{ m.greet() }}", "{% from 'lib.twig' import greet %}{{ greet('a') }}{{ greet() }}", "{% from 'lib.twig' import greet as g %}{{ g('a') }}{{ g() }}"}[c.Form%3]
+	write := func(name, src string, age time.Duration) error {
+		p := filepath.Join(root, name)
+		if err := os.WriteFile(p, []byte(src), 0o644); err != nil {
+			return err
+		}
+		tm := time.Now().Add(-age)
+		return os.Chtimes(p, tm, tm)
+	}
+	if err := write("lib.twig", lib("old"), 2*time.Hour); err != nil {
+		return fmt.Errorf("harness: %v", err)
+	}
+	if err := write("page.twig", page, 2*time.Hour); err != nil {
+		return fmt.Errorf("harness: %v", err)
+	}
+	e := twig.New()
+	e.RegisterLoader(twig.NewFileSystemLoader([]string{root}))
+	if c.Mode%2 == 0 {
+		e.SetCache(false)
+	} else {
+		e.SetAutoReload(true)
+	}
+	for round, v := range []string{"old", "new", "newer"} {
+		if round > 0 {
+			if err := write("lib.twig", lib(v), time.Duration(3-round)*20*time.Minute); err != nil {
+				return fmt.Errorf("harness: %v", err)
+			}
+		}
+		want := v + ":a" + v + ":" + v
+		if r := render(e, "page.twig", nil); r.Failed() || r.Out != want {
+			return fmt.Errorf("round %d (%s): the library on disk now says %q; the page %s renders %v, want %s (the library itself renders %v)", round, []string{"cache off", "auto-reload"}[c.Mode%2], v, q(page), r, q(want), render(e, "lib.twig", nil))
+		}
+	}
+	return nil
+}
+
+func TestC12Reload(t *testing.T) {
+	r := NewRec(t, "C12", "exhaustive: {cache off, auto-reload} x {import as, from import, from import as alias}: a page imports a macro library from a file, the file is rewritten twice (other body, other default, newer time) between renders; oracle: the imported macro is the one the library holds now; all cases non-trivial")
+	defer r.Flush()
+	r.SetExhaustive()
+	for mode := 0; mode < 2; mode++ {
+		for form := 0; form < 3; form++ {
+			c := C12ReloadCase{Mode: mode, Form: form}
+			r.Case(fmt.Sprint(mode, form), true, c)
+			if err := checkC12Reload(c); err != nil {
+				r.FailEnum(t, "C12.reload", c, err)
+			}
+		}
+	}
+}
+
+func init() {
+	reg("C12.nilarg", checkC12NilArg)
+	reg("C12.reload", checkC12Reload)
+}
